@@ -23,6 +23,7 @@ import (
 	"github.com/buchgr/bazel-remote/v2/utils/sha256verifier"
 	"github.com/buchgr/bazel-remote/v2/utils/tempfile"
 	"github.com/buchgr/bazel-remote/v2/utils/validate"
+	"github.com/buchgr/bazel-remote/v2/utils/verifhook"
 
 	"github.com/djherbis/atime"
 
@@ -347,6 +348,7 @@ func (c *diskCache) Put(ctx context.Context, kind cache.EntryKind, hash string, 
 		}
 	}
 
+	verifhook.Step("put.beforecommit", key)
 	unreserve, removeTempfile, err = c.commit(key, legacy, blobFile, size, size, sizeOnDisk, random)
 	if err != nil {
 		return internalErr(err)
@@ -457,6 +459,7 @@ func (c *diskCache) availableOrTryProxy(kind cache.EntryKind, hash string, size 
 	if listElem != nil {
 		c.mu.Unlock() // We expect a cache hit below.
 		locked = false
+		verifhook.Step("get.afterlookup", key)
 
 		blobPath := path.Join(c.dir, c.FileLocation(kind, item.legacy, hash, item.size, item.random))
 
@@ -509,6 +512,7 @@ func (c *diskCache) availableOrTryProxy(kind cache.EntryKind, hash string, size 
 						blobPath, zstd, item.legacy, err)
 					_ = f.Close()
 
+					verifhook.Step("get.beforeremove", key)
 					c.mu.Lock()
 					c.lru.RemoveElement(listElem)
 					c.mu.Unlock()
@@ -738,6 +742,7 @@ func (c *diskCache) get(ctx context.Context, kind cache.EntryKind, hash string, 
 		return nil, -1, internalErr(err)
 	}
 
+	verifhook.Step("get.proxy.beforecommit", key)
 	unreserve, removeTempfile, err = c.commit(key, legacy, blobFile, size, foundSize, sizeOnDisk, random)
 	if err != nil {
 		_ = rc.Close()
